@@ -43,7 +43,7 @@ ASSUMPTIONS = [
 
 CC = CategoricalClassification
 R_SPECIAL = [0.0, 1e-9, -1e-9, 1e-3, 0.05, -0.05, 0.3, -0.3, 0.5, -0.5, 0.8, 0.95, -0.95, 0.999, -0.999, 0.999999, -0.999999]
-WS = [2, 4, 8, 16, 3, 5, 7, 10, 12, 100]
+WS = [2, 4, 8, 16, 3, 5, 7, 10, 12, 100, 512, 1000]
 MARKERS_INT = {'neg1': -1, 'neg999': -999, 'intmax': 2**31 - 1}
 
 
@@ -70,7 +70,9 @@ def dataset_spec(draw, min_n=1, max_n=120, n=None, max_f=6, min_card=1, nonconst
         min_n = max(min_n, card + 1)
     ns = n if n is not None else draw(st.one_of(st.integers(min_n, min(max_n, min_n + 12)), st.integers(min_n, max_n)))
     return {'nf': draw(st.integers(1, max_f)), 'ns': ns, 'card': card, 'seed': draw(st.integers(0, 2**32 - 1)),
-            'own_domains': draw(st.booleans()), 'rep': nonconst}
+            'own_domains': draw(st.booleans()), 'rep': nonconst,
+            # value range [low, low + card - 1] of the default (non-structure) columns, as in C19: offset / id-like codes
+            'low': draw(st.sampled_from([0, 0, 0, 7, 1000, -1000, 10**6, 5 * 10**6, 10**8]))}      # sums of a few columns stay inside int32
 
 
 def build_dataset(ds, kind, id_col=False, as_float=False):
@@ -78,7 +80,8 @@ def build_dataset(ds, kind, id_col=False, as_float=False):
     if ds['own_domains']:
         structure = [[j, list(range(100 * (j + 1), 100 * (j + 1) + ds['card']))] for j in range(ds['nf'])]
     X = cut(kind, CC().generate_data, n_features=ds['nf'], n_samples=ds['ns'], cardinality=ds['card'],
-            structure=structure, ensure_rep=bool(ds.get('rep')), seed=ds['seed'])
+            structure=structure, ensure_rep=bool(ds.get('rep')), seed=ds['seed'],
+            **({'low': int(ds['low']), 'high': int(ds['low']) + 1000} if ds.get('low') else {}))
     if X.shape != (ds['ns'], ds['nf']):
         raise Violation(f'generate_data returned shape {X.shape}', kind=kind)
     if id_col:
@@ -314,7 +317,9 @@ def label_case(ptypes, min_classes=2):
     @st.composite
     def build(draw):
         # mostly few classes; one case in three asks for many (up to 64: evenly spaced cut points accumulate rounding)
-        m = draw(st.integers(min_classes, 6)) if draw(st.integers(0, 2)) else draw(st.sampled_from(range(7, 65)))
+        tier = draw(st.integers(0, 5))
+        m = draw(st.integers(min_classes, 6)) if tier >= 2 else draw(st.sampled_from(range(7, 65))) if tier == 1 else \
+            draw(st.sampled_from(range(65, 301)))      # "all class counts": also more classes than a signed byte can number
         ptype = draw(st.sampled_from([t for t in ptypes if t != 'float' or m == 2]))
         case = {'ds': draw(dataset_spec(min_n=2, max_n=300, min_card=2)), 'm': m, 'ptype': ptype,
                 # with many classes the built-in relations (few distinct decision values) tie at nearly every cut and nothing would
@@ -391,7 +396,7 @@ def oracle_labels(case, rec, kind='C20/labels'):
     np.random.seed(case['perm_seed'])
     y = cut(kind, cc.generate_labels, X, **kw)
     y = np.asarray(y)
-    rec.cls('p=' + case['ptype'], 'dec=' + case['dec'], 'classes=%d' % m if m <= 6 else 'classes=7..64')
+    rec.cls('p=' + case['ptype'], 'dec=' + case['dec'], 'classes=%d' % m if m <= 6 else 'classes=7..64' if m <= 64 else 'classes=65..300')
     if y.shape != (n,):
         raise Violation(f'labels have shape {y.shape}, expected ({n},)')
     yl = y.tolist()
@@ -517,6 +522,9 @@ def oracle_noise_missing(case, rec):
         kw['missing_val'] = float('nan')
     elif case['marker'] != 'default':
         kw['missing_val'] = MARKERS_INT[case['marker']]
+    if case['marker'] not in ('nan', 'default') and bool(np.any(X0 == kw['missing_val'])):
+        rec.cls('excluded:marker-value-occurs-in-data')       # a marker must be distinguishable from the data to be counted
+        return
     np.random.seed(case['np_seed'])
     Z = cut(kind, CC().generate_noise, X, y, p=p, type='missing', **kw)
     if not isinstance(Z, np.ndarray) or Z.shape != X0.shape:
